@@ -56,6 +56,8 @@ def check(repo, rep):
     rb = [f for f, ds in defs.items() if any(d['method'] == '__init__' and d['value'] == ('attr', ('self',), caching.name) for d in ds)]
     rl = cx.leaves(mod, '_Recorder.read')
     for l in rl:
+        if caching.name == 'read':
+            break           # read() is itself the recording read decided above
         if l.outcome == 'return':
             v = l.value
             ok = v[0] == 'call' and ((v[1][0] == 'attr' and v[1][1] == ('self',) and (v[1][2] in rb or v[1][2] == caching.name))) and v[2] == (('p', 'size'),)
@@ -63,10 +65,15 @@ def check(repo, rep):
     # ---------------------------------------------------------------- 2. rewind
     wl = cx.leaves(mod, '_Recorder.rewind')
     wfn = cx.fn(mod, '_Recorder.rewind')
-    flags = [f for f, ds in defs.items() if any(d['method'] == '__init__' and d['value'] == ('c', False) for d in ds) and any(d['method'] == 'rewind' and d['value'] == ('c', True) for d in ds)]
+    tested_in_rewind = {x[2] for l in wl for c in l.conds for x in walk(c[0]) if x[0] == 'attr' and x[1] == ('self',)}
+    flags = [f for f, ds in defs.items() if any(d['method'] == '__init__' and d['value'] == ('c', False) for d in ds)
+             and (any(d['method'] == 'rewind' and d['value'] == ('c', True) for d in ds) or f in tested_in_rewind)]
     datafields = [f for f, ds in defs.items() if any(d['method'] == 'rewind' and P.method(P.const(b''), 'join', P.field(cache))(d['value']) for d in ds)]
     rep.ob('rewind freezes the recording as b"".join(cache) (blocks in read order)', len(datafields) == 1, W(wfn), '_Recorder.rewind:data', 'fields assigned b"".join(cache): %s' % datafields)
-    rep.ob('a first-rewind flag exists (False at construction, True after the first rewind)', len(flags) == 1, W(wfn), '_Recorder.rewind:flag', 'candidates %s' % flags)
+    if len(flags) == 1:
+        rep.ob('a first-rewind flag exists (False at construction, True after the first rewind)', True, W(wfn), '_Recorder.rewind:flag', 'candidates %s' % flags)
+    else:
+        rep.unknown('_Recorder.rewind: how the recorder remembers that it was rewound (a boolean field False at construction, True after the first rewind) was not recognised: candidates %s' % flags)
     nfirst = nlater = 0
     if len(flags) == 1 and len(datafields) == 1:
         flag, dfield = flags[0], datafields[0]
@@ -159,6 +166,8 @@ def check(repo, rep):
                     continue
                 calls = [e[1] for e in l.effects if e[0] == 'call' and e[1][0] == 'call' and e[1][1][0] == 'attr' and e[1][1][2] == 'rewind']
                 first_path = cname == '_Recorder' and any(c0[0] == ('attr', ('self',), flags[0] if flags else '') and not c0[1] for c0 in l.conds)
+                if cname == '_Recorder' and not flags:
+                    continue            # representation of the first-rewind state not recognised (already INCONCLUSIVE above)
                 if not first_path:
                     rep.ob('%s.rewind propagates to the wrapped source (super().rewind() / inner rewind)' % cname, bool(calls), W(rw), '%s.rewind:propagation' % cname, 'rewind calls: %s' % [show(x)[:50] for x in calls])
         # fields written on the read path, or holding generator state, must be re-initialised by the class's rewind
@@ -211,7 +220,9 @@ def check(repo, rep):
     rr = cx.leaves(mod, 'Recorder.__init__')
     for l in rr:
         sup = [e[1] for e in l.effects if e[0] == 'call' and e[1][0] == 'call' and e[1][1][0] == 'attr' and e[1][1][2] == '__init__']
-        ok = bool(sup) and dict(sup[0][3]).get('record') == ('c', True)
+        ar_init = cx.model.find_method(mod, cx.cls(mod, 'AudioReader'), '__init__')
+        from ..symex import bind_call
+        ok = bool(sup) and ar_init is not None and bind_call(sup[0], ar_init[2], skip_self=True).get('record') == ('c', True)
         rep.ob('Recorder is an AudioReader constructed with record=True', ok, W(cx.fn(mod, 'Recorder.__init__')), 'Recorder.__init__:record', 'super call %s' % [show(x)[:100] for x in sup])
     # the proxy's data property of non-recorders raises
     pc = cx.cls(mod, '_AudioReadingProxy')
